@@ -7,4 +7,5 @@ INVARIANT NoLeak
 INVARIANT PublicViewsClean
 INVARIANT PrivateViewsListed
 PROPERTY PublicAbsorbing
+PROPERTY PublicRequestedIsPublic
 CHECK_DEADLOCK FALSE
